@@ -1,17 +1,6 @@
-// ===== spec/jmgr_spec.rs — ghost vocabulary for JournalManager =====
+// ===== spec/jmgr_spec_wm.rs — eviction-watermark vocabulary shared by U-JMGR and U-WORKER (same text as in jmgr_spec.rs) =====
 pub open spec fn wm_view(e: EvictionWatermark) -> WmG { WmG { ks: e.keyspace.id, lsn: e.lsn } }
 pub open spec fn wms_view(v: Seq<EvictionWatermark>) -> Seq<WmG> { Seq::new(v.len(), |i: int| wm_view(v[i])) }
-pub open spec fn item_view(it: Item) -> SealedG { SealedG { path: it.path.id@, wms: wms_view(it.watermarks@) } }
-pub open spec fn items_view(v: Seq<Item>) -> Seq<SealedG> { Seq::new(v.len(), |i: int| item_view(v[i])) }
-impl JournalManager {
-    /// the manager's queue IS the registry of sealed journals (same files, same order, same watermarks), and every
-    /// watermark's keyspace handle is well-formed
-    pub open spec fn wf(&self, w: World) -> bool {
-        &&& items_view(self.items@) == w.sealed
-        &&& (forall|i: int, j: int| 0 <= i < self.items@.len() && 0 <= j < self.items@[i].watermarks@.len() ==>
-                ks_wf(&(#[trigger] self.items@[i].watermarks@[j]).keyspace, w))
-    }
-}
 pub open spec fn has_wm(s: Seq<EvictionWatermark>, ks: u64, lsn: u64) -> bool { exists|q: int| 0 <= q < s.len() && #[trigger] s[q].keyspace.id == ks && s[q].lsn == lsn }
 pub open spec fn all_ks_wf(s: Seq<EvictionWatermark>, w: World) -> bool { forall|q: int| 0 <= q < s.len() ==> ks_wf(&(#[trigger] s[q]).keyspace, w) }
 /// C10 linking invariant at sealing time: every keyspace that still exists and has data in a memtable (i.e. records in the journal
